@@ -26,6 +26,9 @@ type C19Plan struct {
 	SpillCut *SpillCut `json:"spill_cut,omitempty"`
 	// FsizeLimit > 0: while the sorter is fed no file may grow beyond that many bytes (disk full / quota)
 	FsizeLimit uint64 `json:"fsize_limit,omitempty"`
+	// Reuse: the second pass runs on the same sorter: "close-reset" = Close, Reset, feed again, Close;
+	// "reset" = Reset without closing first (as doctor and reingest do), feed again, Close
+	Reuse string `json:"reuse,omitempty"`
 }
 
 type SpillCut struct {
@@ -96,6 +99,9 @@ func init() {
 					p.SpillCut.At = r.Intn(12) // inside the first row header / first cells
 				}
 			}
+			if p.FsizeLimit == 0 && p.SpillCut == nil && r.Chance(0.25) {
+				p.Reuse = Pick(r, []string{"close-reset", "reset"})
+			}
 			if len(tb.PK) > 0 && r.Chance(0.4) {
 				pk, _ := pkIndices(tb.Cols, tb.PK)
 				for j := range tb.Cols {
@@ -111,13 +117,20 @@ func init() {
 }
 
 func feedSorter(p *C19Plan, cols []string, rows [][]string, pkNames []string, pk []int) (*sorter.Sorter, error) {
+	return feedSorterInto(nil, p, cols, rows, pkNames, pk)
+}
+
+func feedSorterInto(s *sorter.Sorter, p *C19Plan, cols []string, rows [][]string, pkNames []string, pk []int) (*sorter.Sorter, error) {
 	runSize := p.RunSize
 	if runSize == 0 {
 		runSize = 1 << 40
 	}
-	s, err := sorter.NewSorter(sorter.WithRunSize(runSize))
-	if err != nil {
-		return nil, err
+	if s == nil {
+		var err error
+		s, err = sorter.NewSorter(sorter.WithRunSize(runSize))
+		if err != nil {
+			return nil, err
+		}
 	}
 	if p.Feed == "csv" {
 		text := CSVText(cols, rows, ',')
@@ -297,13 +310,19 @@ func execC19(t *testing.T, raw json.RawMessage, res *Result) {
 		res.probe("spill_damage_reported_blocks", 1)
 	default:
 	}
-	if err := s1.Close(); err != nil {
-		res.Violate("sorter-error", "Close: %v", err)
+	if p.Reuse != "" && p.Reuse != "close-reset" && p.Reuse != "reset" {
+		res.Invalid("reuse")
 		return
 	}
-	if n := countTmp(); n != 0 {
-		res.Violate("spill-file-left", "%d files left in the temp dir after Close (had %d spill files)", n, spills)
-		return
+	if p.Reuse != "reset" {
+		if err := s1.Close(); err != nil {
+			res.Violate("sorter-error", "Close: %v", err)
+			return
+		}
+		if n := countTmp(); n != 0 {
+			res.Violate("spill-file-left", "%d files left in the temp dir after Close (had %d spill files)", n, spills)
+			return
+		}
 	}
 	// full blocks except last
 	if !blocksErr {
@@ -320,8 +339,18 @@ func execC19(t *testing.T, raw json.RawMessage, res *Result) {
 		}
 	}
 
-	// rows output on an identically fed sorter
-	s2, err := feedSorter(&p, cols, rows, pkNames, pk)
+	// rows output on an identically fed sorter (a new one, or the same one used again)
+	var s2 *sorter.Sorter
+	if p.Reuse != "" && !cut && p.FsizeLimit == 0 {
+		s1.Reset()
+		s2, err = feedSorterInto(s1, &p, cols, rows, pkNames, pk)
+		res.probe("sorter_reused_"+p.Reuse, 1)
+	} else {
+		if p.Reuse == "reset" {
+			s1.Close()
+		}
+		s2, err = feedSorter(&p, cols, rows, pkNames, pk)
+	}
 	if err != nil {
 		res.Violate("sorter-error", "feeding sorter: %v", err)
 		return
@@ -348,7 +377,10 @@ func execC19(t *testing.T, raw json.RawMessage, res *Result) {
 		res.probe("spill_damage_reported_rows", 1)
 	default:
 	}
-	s2.Close()
+	if err := s2.Close(); err != nil {
+		res.Violate("sorter-error", "Close after the rows pass (reuse %q): %v", p.Reuse, err)
+		return
+	}
 	if n := countTmp(); n != 0 {
 		res.Violate("spill-file-left", "%d files left in the temp dir after Close", n)
 		return
